@@ -25,7 +25,7 @@ PROPS = {
                    min_counters={"distinct_rr_types": 35}),
               # the writer-based entry point at offsets 0 / 2 / 7 / beyond 64 KiB: what it writes is what the vector holds
               dict(topic="sinks", gen=[dict(module="Gen_Packet", cfg="Gen_Packet.cfg", out="packet_cases.ndjson",
-                  simulate=dict(quick="num=300", thorough="num=25000", depth=80))], shards=14)],
+                  simulate=dict(quick="num=300", thorough="num=4000", depth=80))], shards=14)],
         rules=["NoPanic", "BuildOk", "CompDecodes", "CompShorter", "CompRoundTrip", "SinkSame"],
     ),
     "C07": dict(
